@@ -15,6 +15,21 @@ FILE_BASES = ["lib", "types", "service", "foo.bar", "import", "metadata", "class
 
 SUB_SEGS = ["admin", "s", "types2", "audit", "t", "u", "admin"]      # a segment may repeat along a path (`admin.admin`)
 T3_NAME_VALUES = ["my_lib", "shelf", "book_shelf", "lib2", "a"]
+# name overrides that are not module names as they stand (capitals, blanks, `/`, a leading `..`): the package directory is the
+# sanitised name — ONE normalised path segment whatever the text (Props/C11 `package_root_segment_no_slash`)
+T3_ODD_NAME_VALUES = ["My Lib", "a/b", "../x", "Shelf-2"]
+
+
+def module_name_ref(text):
+    """`to_valid_module_name` as its docstring states it, character by character (no regex): lower-case, every maximal run of
+    characters outside `a-z 0-9 . $ _ -` becomes one `-`, then every `-` becomes `_`"""
+    out, in_run = [], False
+    for ch in text.lower():
+        if ch in "abcdefghijklmnopqrstuvwxyz0123456789.$_-":
+            out.append(ch); in_run = False
+        elif not in_run:
+            out.append("-"); in_run = True
+    return "".join(out).replace("-", "_")
 NS_OVERRIDE_SEGS = ["foo", "bar", "zed", "google", "cloud", "ads", "a1", "x_y"]
 DEP_PKGS = ["other.common.v1", "google.iam.v1", "google.cloud.location", "other.v1", "other", "dep.a.b.c.v2", "other.common.v1.admin"]
 # FOREIGN option keys that merely CONTAIN `python-gapic-` (another plugin's option, a typo): an option is ours iff its key STARTS
@@ -87,6 +102,8 @@ def gen_case(r: apigen.Rng, idx: int):
         # the single-valued `name` key given 1..3 times with (mostly) DIFFERENT values, anywhere among the other options:
         # which occurrence is the override is for the model of Options.build to say (`lastValue`: the last one)
         nvals = [r.pick(T3_NAME_VALUES) for _ in range(r.pick([1, 2, 2, 3]))]
+        if r.maybe(0.25):
+            nvals[-1] = r.pick(T3_ODD_NAME_VALUES)
         case["override_name"] = nvals
         for v in nvals:
             opts.append("python-gapic-name=" + v)
@@ -212,6 +229,7 @@ def expected_root(case, winner=None):
     # `winner`: the `name` value the MODEL of Options.build says is read (the last one); without a model answer, the last one
     given = name_values(case["opts"])
     name = winner if winner else (given[-1] if given else case["name"])
+    name = module_name_ref(name)
     ver = case["version"]
     return "/".join([s.lower() for s in ns] + [name + ("_" + ver if ver else "")]), "/".join([s.lower() for s in ns] + [name])
 
